@@ -419,3 +419,69 @@ def r_descent(F, R):
                     "this lookup can run after `map = further` (blocks %s) but always indexes the root table %s"
                     % (sorted(descents), sorted(root_fields)))
         R.floor("R-DESCENT", "table lookups that can follow a descent", n, 2)
+
+
+# ---------------------------------------------------------------------------------------------
+# R-TAIL: the decoder panics only while undecoded bits remain
+
+
+def r_tail(F, R):
+    """Decoder::next (helpers inlined) ends the iteration when the input is used up.  Its
+    `malformed data` / `invalid decoding map` panics are therefore legitimate only while bits that
+    could not be decoded remain: every panic must be dominated by a test that still holds there and
+    says the pending-bit counter is non-zero (`!= 0`, `> 0`, `>= c` with c >= 1).  One arm of the
+    end-of-input match testing `pending_bits == 0` before it panics while a sibling arm does not is
+    the one-sided check this rule looks for: with no pending bits the table lookup uses index 0,
+    whose entry is `Further` (or `Void`) for alphabets whose smallest code is longer than one table
+    level, and reading any item then panics at its end instead of stopping."""
+    from expr import fact_still_holds
+    bodies = [b for b in F.bodies.values() if b.name == "next" and b.trait == "Iterator" and
+              (b.self_adt or "").endswith("decoder::Decoder") and not b.in_tests()]
+    R.floor("R-TAIL", "Decoder::next", len(bodies), 1)
+    for b in bodies:
+        R.saw(b)
+        ctx = Ctx(b)
+        adt = F.adts.get(b.self_adt)
+        counters = set()
+        if adt:
+            for f in adt["variants"][0]["fields"]:
+                if f["ty"].get("k") == "uint" and f["ty"]["s"] == "usize":
+                    counters.add("f:" + f["name"])
+
+        def is_counter(t):
+            return t[0] == "place" and t[2] == ("arg", 1) and len(t[3]) == 1 and t[3][0] in counters
+
+        n = 0
+        msgs = {}
+        for bi in sorted(b.live_blocks()):
+            t = b.term(bi)
+            if not (t["k"] == "call" and t["target"] is None):
+                continue
+            n += 1
+            ok = False
+            seen = []
+            for f in facts_at(ctx, bi):
+                if f[0] not in ("Ne", "Gt", "Ge", "Lt", "Le", "Eq"):
+                    continue
+                if not fact_still_holds(ctx, f, bi):
+                    continue
+                op, x, y = f[0], f[1], f[2]
+                if is_counter(y) and not is_counter(x):
+                    op = {"Lt": "Gt", "Le": "Ge", "Gt": "Lt", "Ge": "Le"}.get(op, op)
+                    x, y = y, x
+                if not is_counter(x) or y[0] != "const" or not y[1].isdigit():
+                    continue
+                c = int(y[1])
+                seen.append("%s %s %d" % (x[3][0][2:], op, c))
+                if (op == "Ne" and c == 0) or (op == "Gt") or (op == "Ge" and c >= 1):
+                    ok = True
+            msg = [nd[1] for nd in walk(operand_tree(ctx, t["args"][0])) if nd and nd[0] == "const"] if t["args"] else []
+            msg = msg[0].strip('"') if msg else "?"
+            msgs[msg] = msgs.get(msg, 0) + 1
+            R.check("R-TAIL", b.label(), ok,
+                    construct="panic '%s'%s only while undecoded bits remain" % (
+                        msg, " (#%d)" % msgs[msg] if msgs[msg] > 1 else ""),
+                    where="%s:%s" % (b.file, t["line"]),
+                    detail="dominating facts on the bit counter: %s" % (seen or "none") +
+                    ("" if ok else "; with no pending bits left this arm panics where the sibling arm returns None"))
+        R.floor("R-TAIL", "panic edges in Decoder::next", n, 3)
